@@ -14,7 +14,11 @@ LEVEL = "exploration"
 NATIVE = ["mdtraj.geometry._geometry"]
 RULE = ("cases = (entry point, cell class, placement, pair list) drawn from a seeded stream; positions are generated as "
         "near neighbours then scattered by per-atom lattice shifts of up to +-K cells; a case is non-trivial when at "
-        "least one monitor decided (compared against the float64 image search); distinct = distinct case descriptors")
+        "least one monitor decided (compared against the float64 image search); distinct = distinct case descriptors; "
+        "a second stream (kind=wide) varies what the first holds fixed: index containers/dtypes/layouts, pair-list shapes "
+        "and sizes at SIMD widths, truthy periodic flags, trajectories derived from longer ones, 100-300 frames with "
+        "five per-frame cell patterns, cell scales 2^-6..2^8, compute_distances_core argument types, time-pair list "
+        "shapes, group shapes of find_closest_contact, edit histories on one Trajectory object")
 WORKERS = {"quick": 8, "thorough": 16}
 BUDGET = {"quick": 60, "thorough": 900}
 FLOORS = {"quick": {"mic.min-image": 500, "mic.lattice-congruence": 500, "opt-vs-ref": 100, "distances_t": 50,
@@ -339,3 +343,576 @@ def run_case(case, ctx):
                                   f"(max err {np.abs(d - ref).max():.3g})")
                 else:
                     ctx.ok("plain", d.size)
+
+
+# =====================================================================================================================
+# Widening pass: input classes the stream above never produced.  Same oracle (float64 image search of geom.min_image),
+# same tolerance tau.  Cases are appended AFTER the original stream (descriptor kind "wide"), the original cases keep
+# their numbers and seeds.
+#   args     index tables as int32 / list / tuple / strided view / Fortran order / int16, pair lists of one row, SIMD-width
+#            sizes, thousands of rows, descending, chained, repeated, self pairs only; periodic given as np.True_ / 1 /
+#            np.False_ / 0; trajectory cut out of a longer one (copy or view), every other frame, atom subset, joined,
+#            float64 coordinates assigned, cell assigned as vectors; 1 atom; cells of 0.02 nm and of 1500 nm
+#   core     compute_distances_core with float64 / strided / Fortran positions, float64 vectors, vectors=None,
+#            periodic=False with vectors, opt=False, reduced and unreduced vectors
+#   long     100..300 frames with per-frame cells (all / one field / class change / only the last frames / alternating)
+#            for distances, displacements, distances_t and find_closest_contact(frame=late)
+#   tvar     compute_distances_t: time pairs a==b, a>b, repeated, thousands, int32 / list / tuple / view, empty lists
+#   closest  find_closest_contact: unsorted, overlapping, one-atom and large groups, containers, periodic truthy
+#   history  the same Trajectory object across calls: compute, edit xyz / cell (setter or in place), compute again
+#   big      (thorough) more than 2^24 distances behind one call
+# A frame whose own cell is rectangular is judged for every separation even when other frames of the trajectory are
+# skewed (the statement's domain is per cell).
+WIDE_SUBS = ["args", "args", "args", "core", "long", "tvar", "closest", "history", "args", "core", "tvar", "closest"]
+NWIDE = {"quick": 960, "thorough": 7200}
+PAIR_SHAPES = ["random", "one", "simd", "desc", "chain", "repeat", "self", "allpairs", "thousands"]
+PERIODIC_TRUE = [True, "np.True_", 1]
+PERIODIC_FALSE = [False, "np.False_", 0]
+FLOORS["quick"].update({"wide.min-image": 20000, "wide.lattice-congruence": 8000, "wide.plain": 3000, "wide.distances_t": 3000,
+                        "wide.closest_contact": 100, "wide.opt-vs-ref": 1500, "wide.shape": 300})
+
+
+def _flag(v):
+    return {"np.True_": np.True_, "np.False_": np.False_}.get(v, v) if isinstance(v, str) else v
+
+
+def _gen_wide(tier, seed):
+    n0 = NCASES[tier]
+    cells_ = common.CELL_KINDS + ["near_ortho"]
+    for k in range(NWIDE[tier]):
+        i = n0 + k
+        rng = common.rng_for("C05w", seed, i)
+        sub = WIDE_SUBS[k % len(WIDE_SUBS)]
+        c = dict(i=i, seed=common.case_seed(seed, "C05", i), kind="wide", sub=sub,
+                 cell=cells_[(k // len(WIDE_SUBS)) % len(cells_)],
+                 spread=int(rng.choice([0, 0, 1, 3, 10, 50])),
+                 pf=str(rng.choice(["const", "const"] + common.PF_MODES)),
+                 n_frames=int(rng.integers(1, 6)),
+                 n_atoms=int(rng.choice(common.SIMD_COUNTS)) if rng.random() < 0.35 else int(rng.integers(2, 40)),
+                 scale_log2=int(rng.choice([0, 0, 0, 0, -6, 8])),
+                 idx=str(rng.choice(common.INDEX_STYLES)), pairs=str(rng.choice(PAIR_SHAPES)),
+                 derived=str(rng.choice(common.DERIVED)),
+                 ptrue=int(rng.integers(len(PERIODIC_TRUE))), pfalse=int(rng.integers(len(PERIODIC_FALSE))))
+        if sub == "long":
+            c.update(n_frames=int(rng.choice([100, 129, 257, 300])), n_atoms=int(rng.integers(2, 13)),
+                     pf=str(rng.choice(common.PF_MODES)), pairs="random", derived=str(rng.choice(["none", "none", "stride-nocopy", "join"])))
+        if sub == "history":
+            c.update(n_frames=int(rng.integers(2, 6)), derived="none")
+        if tier == "thorough" and sub == "closest" and rng.random() < 0.08:
+            c.update(n_atoms=int(rng.integers(300, 700)), n_frames=int(rng.integers(1, 4)))  # groups of hundreds of atoms
+        if tier == "thorough" and k % 3600 == 7:
+            c.update(sub="big", n_frames=130, n_atoms=600, pf="one-field", derived="none", scale_log2=0, pairs="random")
+        yield c
+
+
+def gen_cases(tier, seed):  # noqa: F811  (extends the stream defined at the top of the module)
+    import itertools
+    return common.with_asan_slice(itertools.chain(_gen_cases(tier, seed), _gen_wide(tier, seed)), ASAN_EVERY[tier])
+
+
+def _build_wide(case):
+    import mdtraj as md
+    rng = common.rng_for("C05wide", case["seed"])
+    nf, na = case["n_frames"], case["n_atoms"]
+
+    def one_cell():
+        if case["cell"] == "near_ortho":
+            l, a = common.random_cell(rng, "ortho")
+            a = a.copy()
+            for k in rng.choice(3, size=int(rng.integers(1, 4)), replace=False):
+                a[k] = 90.0 + float(rng.choice([-1, 1])) * float(rng.uniform(1e-4, 8e-4))
+            return l, a
+        return common.random_cell(rng, case["cell"])
+    if case["pf"] == "const":
+        c0 = one_cell()
+        cells = [c0] * nf
+    else:
+        cells = common.perframe_cells(rng, case["cell"], nf, case["pf"], one_cell)
+    sc = 2.0 ** case["scale_log2"]
+    L = (np.array([c[0] for c in cells]) * sc).astype(np.float32)
+    A = np.array([c[1] for c in cells], dtype=np.float32)
+    top = common.simple_topology(na)
+    t = md.Trajectory(np.zeros((nf, na, 3), np.float32), top, unitcell_lengths=L, unitcell_angles=A)
+    B = t.unitcell_vectors.astype(np.float64)
+    xyz = np.zeros((nf, na, 3))
+    K = case["spread"]
+    for f in range(nf):
+        w = common.cell_widths(B[f])
+        frac = rng.uniform(0, 1, (na, 3))
+        placement = rng.integers(0, 4)
+        if placement == 1:
+            pos = rng.uniform(0, 1, 3) @ B[f] + rng.normal(scale=w.min() * 0.12, size=(na, 3))
+        elif placement == 2:
+            pos = (np.round(frac * 4) / 4) @ B[f]
+        else:
+            pos = frac @ B[f]
+        if K:
+            pos = pos + rng.integers(-K, K + 1, (na, 3)).astype(np.float64) @ B[f]
+        xyz[f] = pos
+    t.xyz = xyz.astype(np.float32)
+    return t, rng
+
+
+def _pairs_wide(rng, na, shape, big=False):
+    if na == 1:
+        return np.zeros((int(rng.integers(1, 4)), 2), np.int64)
+    if shape == "one":
+        return rng.integers(0, na, (1, 2)).astype(np.int64)
+    if shape == "simd":
+        return rng.integers(0, na, (int(rng.choice(common.SIMD_COUNTS)), 2)).astype(np.int64)
+    if shape == "desc":
+        p = rng.integers(0, na, (int(rng.integers(2, 40)), 2))
+        p = np.stack([p.max(axis=1), p.min(axis=1)], axis=1)
+        return p[np.lexsort((p[:, 1], p[:, 0]))[::-1]].astype(np.int64)
+    if shape == "chain":
+        s = np.arange(na - 1)
+        p = np.stack([s, s + 1], axis=1)
+        return (p if rng.random() < 0.5 else p[::-1, ::-1]).astype(np.int64)
+    if shape == "repeat":
+        return np.tile(rng.integers(0, na, (int(rng.integers(1, 3)), 2)), (int(rng.integers(2, 20)), 1)).astype(np.int64)
+    if shape == "self":
+        s = rng.integers(0, na, int(rng.integers(1, 12)))
+        return np.stack([s, s], axis=1).astype(np.int64)
+    if shape == "allpairs":
+        ii, jj = np.triu_indices(min(na, 24), 1)
+        return np.stack([ii, jj], axis=1).astype(np.int64)
+    if shape == "thousands":
+        return rng.integers(0, na, (int(rng.choice([1023, 2048, 4099, 6000])), 2)).astype(np.int64)
+    return rng.integers(0, na, (int(rng.integers(1, 40)), 2)).astype(np.int64)
+
+
+def _orth_frames(A):
+    return np.all(np.asarray(A) == 90.0, axis=1)
+
+
+def _judge_w(ctx, mon, key_prefix, d, raw, Bf, tau, orth_f, frame, what="", dmin=None):
+    """module-level twin of run_case.judge_dist: never below the minimum image; equal to it inside the domain"""
+    d = np.asarray(d, np.float64)
+    if dmin is None:
+        _, dmin = geom.min_image(raw, Bf)
+    w = common.cell_widths(Bf).min()
+    below = d < dmin - tau
+    if below.any():
+        j = int(np.argmax(below))
+        ctx.violation(mon, f"{key_prefix}:distance-below-minimum-image", f"{key_prefix}{what}: reported {d[j]:.6g} < minimum image {dmin[j]:.6g}",
+                      frame=frame, raw=raw[j], cell=Bf, tau=tau)
+    dom = np.ones(len(d), bool) if orth_f else (dmin < w / 2 - tau)
+    bad = dom & ~(np.abs(d - dmin) <= tau)
+    if bad.any():
+        j = int(np.argmax(bad))
+        ctx.violation(mon, f"{key_prefix}:not-minimum-image{'-ortho' if orth_f else '-triclinic'}",
+                      f"{key_prefix}{what}: reported {d[j]:.6g}, minimum image {dmin[j]:.6g} (tau {tau:.2g}, w_min/2 {w / 2:.4g})",
+                      frame=frame, raw=raw[j], cell=Bf, tau=tau)
+    ctx.ok(mon, int(dom.sum() - bad.sum()))
+    if (~dom).any():
+        ctx.skip(mon, "skewed cell and d_min >= w_min/2 (outside the stated domain)", int((~dom).sum()))
+    return dmin, dom
+
+
+def _judge_disp(ctx, key_prefix, v, d, raw, Bf, tau, frame, what=""):
+    v = np.asarray(v, np.float64)
+    r = v - raw
+    n = np.round(r @ np.linalg.inv(Bf))
+    resid = np.linalg.norm(r - n @ Bf, axis=1)
+    bad = ~(resid <= tau)
+    if bad.any():
+        j = int(np.argmax(bad))
+        ctx.violation("wide.lattice-congruence", f"{key_prefix}:displacement:not-lattice-shift",
+                      f"{key_prefix}{what}: displacement differs from x2-x1 by a non-lattice vector (residual {resid[j]:.3g} > {tau:.2g})",
+                      frame=frame, raw=raw[j], disp=v[j], cell=Bf)
+    ctx.ok("wide.lattice-congruence", int((~bad).sum()))
+    bad = ~(np.abs(np.linalg.norm(v, axis=1) - d) <= tau)
+    if bad.any():
+        j = int(np.argmax(bad))
+        ctx.violation("wide.dist-is-norm", f"{key_prefix}:distance-not-norm-of-displacement",
+                      f"{key_prefix}{what}: |displacement| {np.linalg.norm(v[j]):.6g} != distance {d[j]:.6g}", frame=frame)
+    ctx.ok("wide.dist-is-norm", int((~bad).sum()))
+
+
+def _judge_plain(ctx, key, d, v, x64, pairs, tau, what):
+    raw = x64[:, pairs[:, 1]] - x64[:, pairs[:, 0]]
+    ref = np.linalg.norm(raw, axis=-1)
+    bad = ~(np.abs(d - ref) <= tau)
+    badv = np.zeros_like(bad) if v is None else ~(np.abs(v - raw).max(axis=-1) <= tau)
+    if bad.any() or badv.any():
+        ctx.violation("wide.plain", key, f"{what}: distance/displacement is not the plain Euclidean value (max err {np.abs(d - ref).max():.3g})")
+    else:
+        ctx.ok("wide.plain", int(d.size))
+
+
+def _shape_ok(ctx, key, got, want, what):
+    if tuple(got) != tuple(want):
+        ctx.violation("wide.shape", key, f"{what}: shape {tuple(got)}, documented {tuple(want)}")
+        return False
+    ctx.ok("wide.shape")
+    return True
+
+
+def _judge_t(ctx, key_prefix, d, x64, B, orth_f, sub, times, tau, what):
+    """time-pair variant: accepted when it is the minimum image under the cell of either frame of the pair (see above)"""
+    for k, (a, b) in enumerate(times):
+        a, b = int(a), int(b)
+        raw = x64[b, sub[:, 1]] - x64[a, sub[:, 0]]
+        okk = np.zeros(len(sub), bool)
+        domk = np.ones(len(sub), bool)
+        for fr in {a, b}:
+            _, dmin = geom.min_image(raw, B[fr])
+            w = common.cell_widths(B[fr]).min()
+            domk &= np.ones(len(sub), bool) if (orth_f[a] and orth_f[b]) else (dmin < w / 2 - tau)
+            okk |= np.abs(d[k] - dmin) <= tau
+        bad = domk & ~okk
+        if bad.any():
+            j = int(np.argmax(bad))
+            ctx.violation("wide.distances_t", f"{key_prefix}:not-minimum-image-in-either-frames-cell",
+                          f"{key_prefix}{what}: {d[k, j]:.6g} for time pair ({a},{b}) is not the minimum image under the cell of frame {a} or {b}",
+                          times=[a, b])
+        ctx.ok("wide.distances_t", int((domk & ~bad).sum()))
+        if (~domk).any():
+            ctx.skip("wide.distances_t", "skewed cell and d_min >= w_min/2", int((~domk).sum()))
+
+
+def _times_wide(rng, nf, shape):
+    if shape == "same":
+        s = rng.integers(0, nf, int(rng.integers(1, 6)))
+        return np.stack([s, s], axis=1)
+    if shape == "desc":
+        p = rng.integers(0, nf, (int(rng.integers(1, 8)), 2))
+        return np.stack([p.max(axis=1), p.min(axis=1)], axis=1)
+    if shape == "repeat":
+        return np.tile(rng.integers(0, nf, (1, 2)), (int(rng.integers(2, 9)), 1))
+    if shape == "many":
+        return rng.integers(0, nf, (int(rng.choice([257, 1000, 2049])), 2))
+    if shape == "all":
+        a, b = np.meshgrid(np.arange(min(nf, 12)), np.arange(min(nf, 12)), indexing="ij")
+        return np.stack([a.ravel(), b.ravel()], axis=1)
+    return rng.integers(0, nf, (int(rng.integers(1, 8)), 2))
+
+
+def _run_wide(case, ctx):
+    import mdtraj as md
+    from mdtraj.geometry import distance as mdist
+    sub_ = case["sub"]
+    t, rng = _build_wide(case)
+    t = common.derive_traj(t, case["derived"], rng)
+    nf, na = t.n_frames, t.n_atoms
+    B = t.unitcell_vectors.astype(np.float64)
+    x64 = t.xyz.astype(np.float64)
+    orth_f = _orth_frames(t.unitcell_angles)
+    K = case["spread"]
+    tau = _tau(t.xyz, B, K)
+    pairs = _pairs_wide(rng, na, case["pairs"])
+    P = common.index_arg(pairs, case["idx"])
+    ptrue, pfalse = _flag(PERIODIC_TRUE[case["ptrue"]]), _flag(PERIODIC_FALSE[case["pfalse"]])
+    desc = f" [pairs={case['pairs']}/{case['idx']}, traj={case['derived']}, cells={case['pf']}, scale=2^{case['scale_log2']}]"
+    ctx.observe("wide.sub", sub_)
+    ctx.observe("wide.cell", case["cell"])
+    ctx.observe("wide.index_container", case["idx"])
+    ctx.observe("wide.pair_list_shape", case["pairs"])
+    ctx.observe("wide.trajectory_origin", case["derived"])
+    ctx.observe("wide.per_frame_cells", case["pf"])
+    ctx.observe("wide.cell_scale", f"2^{case['scale_log2']}")
+    ctx.observe("wide.n_atoms", na if na in common.SIMD_COUNTS else "other")
+    ctx.observe("wide.n_pairs", len(pairs) if len(pairs) in common.SIMD_COUNTS else ("thousands" if len(pairs) > 1000 else "other"))
+    ctx.observe("wide.n_frames", "1" if nf == 1 else ("2-5" if nf <= 5 else ">=100"))
+    ctx.observe("wide.kernel", "ortho" if orth_f.all() else ("mixed" if orth_f.any() else "triclinic"))
+
+    def mic_all(entry, d, disp, prs, frames=None):
+        frames = range(nf) if frames is None else frames
+        dm = geom.min_image_batch(x64[:, prs[:, 1]] - x64[:, prs[:, 0]], B)[1] if nf >= 50 else None
+        for f in frames:
+            raw = x64[f, prs[:, 1]] - x64[f, prs[:, 0]]
+            _judge_w(ctx, "wide.min-image", entry, d[f], raw, B[f], tau, bool(orth_f[f]), f, desc, dmin=None if dm is None else dm[f])
+            if disp is not None:
+                _judge_disp(ctx, entry, disp[f], np.asarray(d[f], np.float64), raw, B[f], tau, f, desc)
+
+    if sub_ in ("args", "big"):
+        if sub_ == "big":
+            pairs = rng.integers(0, na, (130000, 2)).astype(np.int64)
+            P = pairs.astype(np.int32)
+            ctx.observe("wide.big_request", f"{nf} frames x {len(pairs)} pairs = {nf * len(pairs)} distances (> 2^24)")
+        ctx.observe("wide.periodic_flag", repr(PERIODIC_TRUE[case["ptrue"]]))
+        d = md.compute_distances(t, P, periodic=ptrue, opt=True)
+        disp = md.compute_displacements(t, P, periodic=ptrue, opt=True)
+        if not (_shape_ok(ctx, "compute_distances:shape", d.shape, (nf, len(pairs)), "compute_distances" + desc)
+                and _shape_ok(ctx, "compute_displacements:shape", disp.shape, (nf, len(pairs), 3), "compute_displacements" + desc)):
+            return
+        if sub_ == "big":
+            # judged on a sample: whole pair columns at the chunk edges of 2^24 values, and scattered entries
+            edge = (2 ** 24) // len(pairs)
+            for f in sorted(x for x in ({0, 1, edge - 1, edge, edge + 1, nf - 1} | set(rng.integers(0, nf, 4).tolist())) if 0 <= x < nf):
+                cols = np.unique(np.concatenate([rng.integers(0, len(pairs), 3000), np.arange(0, 64), np.arange(len(pairs) - 64, len(pairs))]))
+                raw = x64[f, pairs[cols, 1]] - x64[f, pairs[cols, 0]]
+                _judge_w(ctx, "wide.min-image", "compute_distances(opt)", d[f, cols], raw, B[f], tau, bool(orth_f[f]), f, desc)
+                _judge_disp(ctx, "compute_displacements(opt)", disp[f, cols], d[f, cols].astype(np.float64), raw, B[f], tau, f, desc)
+            return
+        mic_all("compute_distances(opt)", d, disp, pairs)
+        same = pairs[:, 0] == pairs[:, 1]
+        if same.any():
+            ctx.check(bool(np.all(np.abs(d[:, same]) <= tau)), "wide.self-pair", "compute_distances(opt):self-pair-nonzero", "distance of an atom to itself is not 0" + desc)
+        ns = min(len(pairs), 10)
+        subp = pairs[:ns]
+        dref = md.compute_distances(t, common.index_arg(subp, case["idx"]), periodic=ptrue, opt=False)
+        vref = md.compute_displacements(t, common.index_arg(subp, case["idx"]), periodic=ptrue, opt=False)
+        if _shape_ok(ctx, "compute_distances(opt=False):shape", dref.shape, (nf, ns), "compute_distances(opt=False)" + desc):
+            mic_all("compute_distances(opt=False)", dref, vref, subp)
+            for f in range(nf):
+                raw = x64[f, subp[:, 1]] - x64[f, subp[:, 0]]
+                _, dmin = geom.min_image(raw, B[f])
+                dom = np.ones(ns, bool) if orth_f[f] else (dmin < common.cell_widths(B[f]).min() / 2 - tau)
+                bad = dom & ~(np.abs(dref[f] - d[f, :ns]) <= 2 * tau)
+                if bad.any():
+                    j = int(np.argmax(bad))
+                    ctx.violation("wide.opt-vs-ref", "compute_distances:opt-vs-ref", f"opt {d[f, j]:.6g} vs ref {dref[f, j]:.6g}" + desc, frame=f)
+                ctx.ok("wide.opt-vs-ref", int((dom & ~bad).sum()))
+        # empty list through every entry point and both paths
+        e = common.index_arg(np.zeros((0, 2), np.int64), case["idx"] if case["idx"] not in ("list", "tuple") else "int64")
+        for opt in (True, False):
+            _shape_ok(ctx, f"compute_distances(opt={opt}):empty-pairs:shape", md.compute_distances(t, e, opt=opt).shape, (nf, 0), "compute_distances(empty)")
+            _shape_ok(ctx, f"compute_displacements(opt={opt}):empty-pairs:shape", md.compute_displacements(t, e, opt=opt).shape, (nf, 0, 3), "compute_displacements(empty)")
+        # plain values: periodic false-like flags on the periodic trajectory, and a trajectory without cell
+        ctx.observe("wide.nonperiodic_flag", repr(PERIODIC_FALSE[case["pfalse"]]))
+        tn = md.Trajectory(t.xyz, t.topology)
+        for label, tr, flag in ((f"periodic={PERIODIC_FALSE[case['pfalse']]!r}", t, pfalse), ("no-cell", tn, ptrue)):
+            for opt in (True, False):
+                prs = pairs if opt else subp
+                Pp = common.index_arg(prs, case["idx"])
+                dd = md.compute_distances(tr, Pp, periodic=flag, opt=opt)
+                vv = md.compute_displacements(tr, Pp, periodic=flag, opt=opt)
+                _judge_plain(ctx, f"plain:{label}:opt={opt}", dd, vv, x64, prs, tau, f"{label} opt={opt}" + desc)
+
+    elif sub_ == "core":
+        posmode = str(rng.choice(["f32", "f64", "strided", "fortran", "list-of-frames"]))
+        vecmode = str(rng.choice(["f32", "f64", "unreduced", "unreduced64", "none", "periodic-false"]))
+        ctx.observe("wide.core_positions", posmode)
+        ctx.observe("wide.core_vectors", vecmode)
+        if posmode == "f32":
+            pos = t.xyz.copy()
+        elif posmode == "f64":
+            pos = t.xyz.astype(np.float64)
+        elif posmode == "strided":
+            bigx = np.full((nf, 2 * na + 1, 3), 1e3, np.float32)
+            bigx[:, 1::2] = t.xyz
+            pos = bigx[:, 1::2]
+        elif posmode == "fortran":
+            pos = np.asfortranarray(t.xyz)
+        else:
+            pos = np.stack([fr for fr in t.xyz.astype(np.float64)])
+        Bv = B.copy()
+        if vecmode.startswith("unreduced"):
+            for f in range(nf):
+                k1, k2, k3 = rng.integers(-2, 3, 3)
+                Bv[f, 2] = Bv[f, 2] + k1 * Bv[f, 1] + k2 * Bv[f, 0]
+                Bv[f, 1] = Bv[f, 1] + k3 * Bv[f, 0]
+        vec = None if vecmode == "none" else (Bv.astype(np.float32) if vecmode in ("f32", "unreduced") else Bv.astype(np.float32).astype(np.float64))
+        per = pfalse if vecmode == "periodic-false" else ptrue
+        for opt in (True, False):
+            prs = pairs if opt else pairs[: min(len(pairs), 8)]
+            d = mdist.compute_distances_core(pos, common.index_arg(prs, case["idx"]), unitcell_vectors=None if vec is None else vec.copy(), periodic=per, opt=opt)
+            entry = f"compute_distances_core(opt={opt})"
+            if not _shape_ok(ctx, entry + ":shape", d.shape, (nf, len(prs)), entry + desc):
+                continue
+            if vecmode in ("none", "periodic-false"):
+                _judge_plain(ctx, f"{entry}:plain:vectors={vecmode}", d, None, x64, prs, tau, entry + f" vectors={vecmode}" + desc)
+                continue
+            Bl = vec.astype(np.float64)
+            # the cell is rectangular when the vectors handed over are: off-diagonal components exactly zero
+            for f in range(nf):
+                rect = bool(np.all(Bl[f][~np.eye(3, dtype=bool)] == 0))
+                raw = x64[f, prs[:, 1]] - x64[f, prs[:, 0]]
+                _judge_w(ctx, "wide.min-image", entry, d[f], raw, Bl[f], tau + 16 * geom.EPS32 * float(np.abs(Bl[f]).max()) * (2 + K), rect and bool(orth_f[f]), f,
+                         f" positions={posmode} vectors={vecmode}" + desc)
+
+    elif sub_ == "long":
+        d = md.compute_distances(t, P, periodic=True, opt=True)
+        disp = md.compute_displacements(t, P, periodic=True, opt=True)
+        if not (_shape_ok(ctx, "compute_distances:shape", d.shape, (nf, len(pairs)), "compute_distances" + desc)
+                and _shape_ok(ctx, "compute_displacements:shape", disp.shape, (nf, len(pairs), 3), "compute_displacements" + desc)):
+            return
+        mic_all("compute_distances(opt,long)", d, disp, pairs)
+        sp = pairs[:2]
+        dref = md.compute_distances(t, sp, periodic=True, opt=False)
+        mic_all("compute_distances(opt=False,long)", dref, None, sp)
+        edges = [0, 1, 63, 64, 99, 100, 127, 128, 129, 199, 200, 255, 256, 257, 299]
+        fr = np.array([e for e in edges if e < nf] + [nf - 1])
+        times = np.concatenate([rng.integers(0, nf, (12, 2)), np.stack([rng.choice(fr, 10), rng.choice(fr, 10)], axis=1)])
+        for opt in (True, False):
+            prs = pairs if opt else sp
+            tm = times if opt else times[-6:]
+            dt = md.compute_distances_t(t, prs, tm, periodic=True, opt=opt)
+            if _shape_ok(ctx, f"compute_distances_t(opt={opt}):shape", dt.shape, (len(tm), len(prs)), "compute_distances_t" + desc):
+                _judge_t(ctx, f"compute_distances_t(opt={opt},long)", dt, x64, B, orth_f, prs, tm, tau, desc)
+        if na >= 2:
+            perm = rng.permutation(na)
+            k = int(rng.integers(1, na))
+            _closest(ctx, md, t, x64, B, orth_f, perm[:k], perm[k:], [int(fr[-1]), int(rng.choice(fr))], [True], tau, "int64", desc, "long")
+
+    elif sub_ == "tvar":
+        tshape = str(rng.choice(["random", "same", "desc", "repeat", "many", "all"]))
+        tstyle = str(rng.choice(common.INDEX_STYLES))
+        ctx.observe("wide.time_pairs_shape", tshape)
+        ctx.observe("wide.time_pairs_container", tstyle)
+        times = _times_wide(rng, nf, tshape).astype(np.int64)
+        if tshape == "many":
+            pairs = pairs[:6]
+            P = common.index_arg(pairs, case["idx"])
+        for opt in (True, False):
+            prs = pairs if opt else pairs[:6]
+            tm = times if opt else times[:10]
+            for per, lab in ((ptrue, "periodic"), (pfalse, "plain")):
+                dt = md.compute_distances_t(t, common.index_arg(prs, case["idx"]), common.index_arg(tm, tstyle), periodic=per, opt=opt)
+                entry = f"compute_distances_t(opt={opt})"
+                if not _shape_ok(ctx, f"{entry}:shape", dt.shape, (len(tm), len(prs)), entry + desc):
+                    continue
+                if lab == "periodic":
+                    rows = np.arange(len(tm)) if len(tm) <= 160 else np.unique(np.concatenate([np.arange(8), np.arange(len(tm) - 8, len(tm)), rng.integers(0, len(tm), 120)]))
+                    _judge_t(ctx, entry, dt[rows], x64, B, orth_f, prs, tm[rows], tau, desc + f" times={tshape}/{tstyle}")
+                else:
+                    ref = np.linalg.norm(x64[tm[:, 1]][:, prs[:, 1]] - x64[tm[:, 0]][:, prs[:, 0]], axis=-1)
+                    bad = ~(np.abs(dt - ref) <= tau)
+                    if bad.any():
+                        ctx.violation("wide.plain", f"{entry}:plain", f"non-periodic distances_t {dt[bad][0]:.6g} vs {ref[bad][0]:.6g}" + desc)
+                    else:
+                        ctx.ok("wide.plain", int(dt.size))
+            # empty lists: documented shape is (num_times, num_atom_pairs)
+            # (the empty-list return precedes the opt / periodic dispatch: one mechanism, one key)
+            e = md.compute_distances_t(t, np.zeros((0, 2), np.int64), tm, opt=opt)
+            _shape_ok(ctx, "compute_distances_t:empty-pairs:shape-is-not-(num_times,0)", e.shape, (len(tm), 0), "compute_distances_t(empty atom_pairs)")
+            e = md.compute_distances_t(t, prs, np.zeros((0, 2), np.int64), opt=opt)
+            _shape_ok(ctx, f"compute_distances_t(opt={opt}):empty-times:shape", e.shape, (0, len(prs)), "compute_distances_t(empty time_pairs)")
+
+    elif sub_ == "closest":
+        if na < 2:
+            ctx.skip("wide.closest_contact", "fewer than two atoms")
+            return
+        gmode = str(rng.choice(["partition", "unsorted", "overlap", "one-vs-rest", "one-vs-one", "same-group", "repeated"]))
+        ctx.observe("wide.closest_groups", gmode)
+        perm = rng.permutation(na)
+        k = int(rng.integers(1, na))
+        g1, g2 = perm[:k], perm[k:]
+        if gmode == "partition":
+            g1, g2 = np.sort(g1), np.sort(g2)
+        elif gmode == "overlap":
+            g2 = np.concatenate([g2, g1[: int(rng.integers(1, len(g1) + 1))]])
+        elif gmode == "one-vs-rest":
+            g1, g2 = perm[:1], perm[1:]
+        elif gmode == "one-vs-one":
+            g1, g2 = perm[:1], perm[1:2]
+        elif gmode == "same-group":
+            g2 = g1.copy()
+        elif gmode == "repeated":
+            g1 = np.concatenate([g1, g1[:1]])
+        frames = sorted({int(rng.integers(0, nf)), nf - 1})
+        _closest(ctx, md, t, x64, B, orth_f, g1, g2, frames, [ptrue, pfalse], tau, case["idx"], desc + f" groups={gmode}", "args")
+
+    elif sub_ == "history":
+        ops = ["xyz-inplace", "xyz-setter", "lengths-setter", "lengths-inplace", "angles-setter", "vectors-setter", "cell-removed", "lattice-shift-inplace"]
+        seq = [str(o) for o in rng.choice(ops, int(rng.integers(1, 4)))]
+        sp = pairs[: min(len(pairs), 6)]
+
+        def observe_all(stage):
+            # after an edit the lattice is built independently from the lengths and angles the object holds now
+            Bc = None if t.unitcell_lengths is None else _lattice_now(ctx, t, stage)
+            xc = t.xyz.astype(np.float64)
+            tc = tau if Bc is None else _tau(t.xyz, Bc, K + 3)
+            of = None if Bc is None else _orth_frames(t.unitcell_angles)
+            for opt in (True, False):
+                prs = pairs if opt else sp
+                dd = md.compute_distances(t, prs, periodic=True, opt=opt)
+                vv = md.compute_displacements(t, prs, periodic=True, opt=opt)
+                entry = f"history:compute_distances(opt={opt})"
+                if Bc is None:
+                    _judge_plain(ctx, f"{entry}:after-cell-removed:plain", dd, vv, xc, prs, tc, entry + " after the cell was removed")
+                    continue
+                for f in range(nf):
+                    raw = xc[f, prs[:, 1]] - xc[f, prs[:, 0]]
+                    _judge_w(ctx, "wide.min-image", entry, dd[f], raw, Bc[f], tc, bool(of[f]), f, f" {stage}" + desc)
+                    _judge_disp(ctx, entry, vv[f], np.asarray(dd[f], np.float64), raw, Bc[f], tc, f, f" {stage}" + desc)
+            if Bc is not None:
+                tm = rng.integers(0, nf, (4, 2))
+                dt = md.compute_distances_t(t, pairs, tm, periodic=True, opt=True)
+                _judge_t(ctx, "history:compute_distances_t(opt=True)", dt, xc, Bc, of, pairs, tm, tc, f" {stage}" + desc)
+                if na >= 2:
+                    perm = rng.permutation(na)
+                    _closest(ctx, md, t, xc, Bc, of, perm[: na // 2], perm[na // 2:], [int(rng.integers(0, nf))], [True], tc, "int64", f" {stage}" + desc, "history")
+        observe_all("first call")
+        for o in seq:
+            ctx.observe("wide.history_edit", o)
+            if t.unitcell_lengths is None and o not in ("xyz-inplace", "xyz-setter"):
+                continue
+            f = int(rng.integers(0, nf))
+            if o == "xyz-inplace":
+                t.xyz[f, int(rng.integers(0, na))] += np.float32(rng.normal(scale=0.3, size=3) * 2.0 ** case["scale_log2"])
+            elif o == "xyz-setter":
+                t.xyz = (t.xyz[::-1] + np.float32(0.25 * 2.0 ** case["scale_log2"])).astype(np.float32)
+            elif o == "lattice-shift-inplace":
+                a = int(rng.integers(0, na))
+                t.xyz[f, a] = (t.xyz[f, a].astype(np.float64) + rng.integers(-3, 4, 3) @ t.unitcell_vectors[f].astype(np.float64)).astype(np.float32)
+            elif o == "lengths-setter":
+                L = t.unitcell_lengths.copy()
+                L[f] *= np.float32(rng.uniform(0.7, 1.4))
+                t.unitcell_lengths = L
+            elif o == "lengths-inplace":
+                t.unitcell_lengths[f, int(rng.integers(3))] *= np.float32(rng.uniform(0.7, 1.4))
+            elif o == "angles-setter":
+                A = t.unitcell_angles.copy()
+                A[f] = common.random_cell(rng, str(rng.choice(["ortho", "monoclinic", "mono_alpha", "hex120", "triclinic"])))[1]
+                t.unitcell_angles = A
+            elif o == "vectors-setter":
+                l, a = common.random_cell(rng, case["cell"] if case["cell"] != "near_ortho" else "triclinic")
+                V = t.unitcell_vectors.copy()
+                V[f] = common.cell_vectors64(l * 2.0 ** case["scale_log2"], a)
+                t.unitcell_vectors = V
+            elif o == "cell-removed":
+                t.unitcell_vectors = None
+            observe_all("after " + "+".join(seq[: seq.index(o) + 1]))
+
+
+def _lattice_now(ctx, t, stage):
+    """float64 lattice from the lengths / angles the Trajectory holds at this moment (vlib.gen.common.cell_vectors64), checked
+    against what unitcell_vectors reports (mdtraj zeroes components below 1e-6 nm and computes in float32: allowance
+    2e-6 + 1e-5 * longest edge).  Returns the lattice to judge by."""
+    Bi = np.array([common.cell_vectors64(l, a) for l, a in zip(t.unitcell_lengths, t.unitcell_angles)])
+    Br = np.asarray(t.unitcell_vectors, np.float64)
+    dev = np.abs(Bi - Br).max(axis=(1, 2))
+    lim = 2e-6 + 1e-5 * np.linalg.norm(Bi, axis=2).max(axis=1)
+    if (dev > lim).any():
+        f = int(np.argmax(dev - lim))
+        ctx.violation("wide.history-lattice", "history:unitcell_vectors-differ-from-current-lengths-and-angles",
+                      f"{stage}: unitcell_vectors of frame {f} deviate by {dev[f]:.3g} nm from the lattice of the lengths/angles the object holds", frame=f)
+    else:
+        ctx.ok("wide.history-lattice", len(dev))
+    # frames whose reported lattice is the current one (within the allowance) are judged by the reported lattice, which is
+    # what the tolerance tau is derived for; frames with a stale lattice by the independent one
+    return np.where((dev > lim)[:, None, None], Bi, Br)
+
+
+def _closest(ctx, md, t, x64, B, orth_f, g1, g2, frames, flags, tau, style, desc, tag):
+    g1, g2 = np.asarray(g1, np.int64), np.asarray(g2, np.int64)
+    P = np.array([(i, j) for i in g1 for j in g2])
+    for f in frames:
+        for flag in flags:
+            periodic = bool(flag)
+            a1, a2, dist = md.find_closest_contact(t, common.index_arg(g1, style), common.index_arg(g2, style), frame=f, periodic=flag)
+            raw = x64[f, P[:, 1]] - x64[f, P[:, 0]]
+            if periodic:
+                _, dall = geom.min_image(raw, B[f])
+                w = common.cell_widths(B[f]).min()
+                if not orth_f[f] and not dall.min() < w / 2 - tau:
+                    ctx.skip("wide.closest_contact", "skewed cell and closest distance >= w_min/2")
+                    continue
+            else:
+                dall = np.linalg.norm(raw, axis=1)
+            okd = abs(dist - dall.min()) <= tau
+            idx = np.where((P[:, 0] == a1) & (P[:, 1] == a2))[0]
+            okp = len(idx) >= 1 and dall[idx[0]] <= dall.min() + 2 * tau
+            ctx.check(bool(okd and okp), "wide.closest_contact", f"closest_contact[{tag}]:periodic={periodic}:not-argmin",
+                      f"find_closest_contact(frame={f}, periodic={flag!r}) -> ({a1},{a2},{dist:.6g}); true minimum {dall.min():.6g}" + desc, frame=f)
+
+
+_run_case_original = run_case
+
+
+def run_case(case, ctx):  # noqa: F811
+    if case.get("kind") == "wide":
+        return _run_wide(case, ctx)
+    return _run_case_original(case, ctx)
